@@ -45,6 +45,7 @@ func allProps() []*PropSpec {
 		propC16(),
 		propC11(),
 		propC05(),
+		propC17(),
 	}
 }
 
@@ -441,6 +442,31 @@ func propC05() *PropSpec {
 			js = append(js, jobsN("svg", "VerifSVGPathArc", pick([]int{1}, []int{1}), "arc with compact flags")...)
 			js = append(js, jobsN("svg", "VerifSVGAttr", []int{0}, "26 root attributes x 26 x 9 child attributes x Inline x KeepComments")...)
 			js = append(js, Job{Pkg: "svg", Fn: "VerifSVGTwin", N: 0, ExpectFail: true, Desc: "vacuity twin"})
+			return js
+		},
+	}
+}
+
+func propC17() *PropSpec {
+	return &PropSpec{
+		ID:   "C17",
+		Rule: "one case = one table entry selected by a symbolic index (every entry of html EntitiesMap, attrMap, tagMap, css ShortenColorHex/ShortenColorName/optionalZeroDimension, xml EntitiesMap) checked against an independent reference (Go standard library html.UnescapeString, CSS named colours from x/image/colornames + rebeccapurple, lists written from the HTML standard / CSS Values), directly and through parse.ReplaceEntities; plus ToHash on all identifiers of n symbolic bytes; non-trivial = completes with a distinct symbolic output",
+		Assumptions: []string{"std html.UnescapeString is the reference HTML5 decoder", "reference lists of boolean / URL attributes and raw-text elements in harness/html/tables.go (svg and math count as foreign content handed over as a whole)", "level-4 length units are accepted in the zero-unit table"},
+		Outside:     []string{"elements next to which whitespace is dropped (blockTag/inlineTag traits) versus the rendering rules of the HTML standard: a finite judgement table with no input to quantify over; their effect on words is decided by C03", "svg tables"},
+		Stubs:       []string{"sync.Once sequential model", "sort.Slice model"},
+		Jobs: func(tier string) []Job {
+			var js []Job
+			js = append(js, jobsN("html", "VerifHTMLEntities", rng(0, 4), "256 entities per block x 6 following contexts, text and attribute")...)
+			js = append(js, jobsN("html", "VerifHTMLTraits", []int{0}, "every attrMap / tagMap entry: boolean, URL, raw text traits")...)
+			if tier == "quick" {
+				js = append(js, jobsN("html", "VerifHTMLHash", rng(1, 3), "ToHash on every identifier of n symbolic bytes")...)
+			} else {
+				js = append(js, jobsN("html", "VerifHTMLHash", rng(1, 4), "ToHash on every identifier of n symbolic bytes")...)
+			}
+			js = append(js, jobsN("css", "VerifCSSTables", []int{0}, "every colour pair and zero-unit entry")...)
+			js = append(js, jobsN("css", "VerifCSSColorName", []int{0}, "every CSS colour keyword through css.Minify")...)
+			js = append(js, jobsN("xml", "VerifXMLEntities", []int{0}, "xml entity tables")...)
+			js = append(js, Job{Pkg: "html", Fn: "VerifHTMLTwin", N: 0, ExpectFail: true, Desc: "vacuity twin"})
 			return js
 		},
 	}
